@@ -73,6 +73,8 @@ type FuncContract struct {
 	File     *ast.File
 	Lemmas   bool
 	Replay   []string
+	CallGhosts []*Clause
+	Cases    []*Clause
 }
 
 type CallbackContract struct {
@@ -160,8 +162,20 @@ func parseContracts(fset *token.FileSet, f *ast.File, pkgPath string) ([]*FuncCo
 				}
 			case "maypanic":
 				cur.MayPanic = true
+			case "cases":
+				// proof by cases: every ensures clause is discharged separately under each case and under "none of them"
+				cur.Cases = append(cur.Cases, cl)
 			case "replay":
 				cur.Replay = append(cur.Replay, rest)
+			case "callghost":
+				// callghost CALLEE NAME = EXPR : instance of the callee's rigid ghost NAME at calls made by this function
+				e := strings.Index(rest, "=")
+				fs := strings.Fields(rest[:max(e, 0)])
+				if e < 0 || len(fs) != 2 {
+					return nil, fmt.Errorf("%s: callghost CALLEE NAME = EXPR", fset.Position(cm.Pos()))
+				}
+				cl.CbName, cl.Ghost, cl.Text = fs[0], fs[1], strings.TrimSpace(rest[e+1:])
+				cur.CallGhosts = append(cur.CallGhosts, cl)
 			case "lemma":
 				cur.Lemmas = true
 			case "old":
@@ -175,7 +189,14 @@ func parseContracts(fset *token.FileSet, f *ast.File, pkgPath string) ([]*FuncCo
 			case "ghost":
 				i := strings.Index(rest, "=")
 				if i < 0 {
-					return nil, fmt.Errorf("%s: ghost NAME TYPE = EXPR", fset.Position(cm.Pos()))
+					// rigid ghost: "ghost NAME TYPE" — an arbitrary (universally quantified) logical value
+					fs := strings.SplitN(rest, " ", 2)
+					if len(fs) != 2 {
+						return nil, fmt.Errorf("%s: ghost NAME TYPE [= EXPR]", fset.Position(cm.Pos()))
+					}
+					cl.Ghost, cl.Type, cl.Text = fs[0], strings.TrimSpace(fs[1]), ""
+					cur.Ghosts = append(cur.Ghosts, cl)
+					break
 				}
 				fs := strings.Fields(rest[:i])
 				if len(fs) != 2 {
